@@ -218,7 +218,7 @@ theorem inv_popCas_ok (c : Cfg) (wf : c.WF) {s : State} (h : Inv c s) (t h0 nx)
   all_goals (clear hh hc hpc hc1; subst hhd)
   all_goals (simp only [e1, List.tail_cons]; rw [e1] at hnd; clear e1)
   all_goals (simp only [upd, mayPop, mayPopAll, Prot, released] at *)
-  all_goals (first | grind | (trace_state; sorry))
+  all_goals grind
 
 theorem inv_popCas (c : Cfg) (wf : c.WF) {s s' : State} (h : Inv c s) (t)
     (st : step c s (.popCas t) = some s') : Inv c s' := by
@@ -267,7 +267,7 @@ theorem inv_popAll (c : Cfg) (wf : c.WF) {s s' : State} (h : Inv c s) (t)
       by_cases e : t1 = t <;> by_cases m : a ∈ s.abs <;> simp only [upd, e, m, if_true, if_false] <;> grind
     all_goals (clear hh hc hpc)
     all_goals (simp only [upd, mayPop, mayPopAll, Prot, released] at *)
-    all_goals (first | grind | (trace_state; sorry))
+    all_goals grind
   · simp at st
 
 theorem inv_iterNext (c : Cfg) (wf : c.WF) {s s' : State} (h : Inv c s) (t)
@@ -297,7 +297,45 @@ theorem inv_iterNext (c : Cfg) (wf : c.WF) {s s' : State} (h : Inv c s) (t)
         exact chain_congr (hpc u) (fun _ _ => rfl)
     all_goals (clear hc hpc hc1 hI)
     all_goals (simp only [upd, mayPop, mayPopAll, Prot, released] at *)
-    all_goals (first | grind | (trace_state; sorry))
+    all_goals grind
   · simp at st
+
+
+theorem inv_step (c : Cfg) (wf : c.WF) {s s' : State} {l : Label} (h : Inv c s)
+    (st : step c s l = some s') : Inv c s' := by
+  cases l with
+  | pushBegin t n => exact inv_pushBegin c wf h t n st
+  | pushSt t => exact inv_pushSt c wf h t st
+  | pushCas t => exact inv_pushCas c wf h t st
+  | flush t => exact inv_flush c wf h t st
+  | lock t => exact inv_lock c wf h t st
+  | unlock t => exact inv_unlock c wf h t st
+  | rlock t => exact inv_rlock c wf h t st
+  | runlock t => exact inv_runlock c wf h t st
+  | gpStart => exact inv_gpStart c wf h st
+  | gpEnd => exact inv_gpEnd c wf h st
+  | reclaim n => exact inv_reclaim c wf h n st
+  | empty t => exact inv_empty c wf h t st
+  | popBegin t => exact inv_popBegin c wf h t st
+  | popLd t => exact inv_popLd c wf h t st
+  | popLdN t => exact inv_popLdN c wf h t st
+  | popCas t => exact inv_popCas c wf h t st
+  | popAll t => exact inv_popAll c wf h t st
+  | iterNext t => exact inv_iterNext c wf h t st
+
+theorem inv_reach (c : Cfg) (wf : c.WF) {s : State} (h : Reach c s) : Inv c s := by
+  induction h with
+  | init => exact inv_init c
+  | step _ st ih => exact inv_step c wf ih st
+
+theorem run_reach (c : Cfg) {s s' : State} (ls : List Label) (h : Reach c s)
+    (hr : run c s ls = some s') : Reach c s' := by
+  induction ls generalizing s with
+  | nil => simp [run] at hr; subst hr; exact h
+  | cons l ls ih =>
+    simp only [run] at hr
+    split at hr
+    · simp at hr
+    · next s1 hs => exact ih (Reach.step h hs) hr
 
 end UrcuVerif.Lfs
